@@ -24,7 +24,7 @@ func plainEngines() map[string]simkit.Engine {
 	add("events", events.Run)
 	add("stream-json", stream.JSON)
 	add("stream-html", stream.HTML)
-	add("history", history.Run)
+	m["history"] = simkit.EngineFunc{N: "history", F: history.Run, Ref: history.Reference}
 	add("sched-cli", cli.Sched)
 	add("cli", cli.Run)
 	add("hostile", hostile.Run)
@@ -105,7 +105,7 @@ func checkCmd(args []string) int {
 		c.Assumptions = []string{"no XPath reference evaluator: results are compared with the implementation itself in a fresh isolated world (same document bytes, expression string, bindings, context-node path)", "only public observations are used (Cursor API, exported Grammar methods, the caller's own maps and slices)", "the rebuild-determinism oracle (I4) replays probabilistically"}
 		c.Components = map[string][]string{"real": realLib, "simulated": {"the caller (order, repetition and aliasing of public API calls)", "user callbacks (errors, panics, re-entrancy, handing out held slices)"}}
 		c.RequiredProbes = []string{"held-slice-with-spare-capacity", "held-slice-in-reverse-order", "variable-is-held-slice-with-spare-capacity", "callback-reentered-Exec", "callback-reentered-same-compiled-expression", "compiled-expression-reused", "bindings-via-caller-owned-maps", "callback-error", "callback-panic", "repeated-operation", "rebuild-determinism-check", "callback-returned-caller-held-slice"}
-		c.Phases = []simkit.Phase{{Label: "history", Bin: bin, Engine: "history", Runs: pick(10000, 400000), MaxSeconds: secs(70, 1500), DetSample: int(pick(16, 128)), Samples: 3}}
+		c.Phases = []simkit.Phase{{Label: "history", Bin: bin, Engine: "history", Runs: pick(10000, 400000), MaxSeconds: secs(70, 1500), DetSample: int(pick(16, 128)), Samples: 3, HistTail: int(pick(6, 24))}}
 	case "C14":
 		c.Level = "exploration"
 		raceEnv := []string{"GORACE=halt_on_error=0 exitcode=0 log_path=" + env("VERIF_RACE_LOG", "/tmp/verif-race")}
